@@ -17,6 +17,9 @@ def items(tier):
     out += seq.family_F(tier)
     out += seq.family_A(tier)
     out += seq.family_O(tier)
+    from ..gen import chain
+    n = len(chain.shadow_programs())
+    out += [('N', tuple(range(k, min(k + 6, n)))) for k in range(0, n, 6)]
     return [(i,) + it for i, it in enumerate(out)]
 
 
@@ -68,6 +71,21 @@ def run_item(item, tier):
         _run_prog(st, src, argvs, [2, 3, 4, 8], f'F[{payload}]')
         if tier == 'thorough':
             _run_prog(st, src, argvs, [2, 4], f'F[{payload}]/bigstack', S=4 * hid.GEN_STACK)
+    elif fam == 'N':
+        from ..gen import chain
+        from ..ref import types as rtypes
+        from ..ref.parser import parse_program
+        progs = chain.shadow_programs()
+        for k in payload:
+            tag, src = progs[k]
+            try:
+                rtypes.elaborate(parse_program(src))
+            except (rtypes.Reject, rtypes.Unspecified):
+                st.add('skipped_not_accepted_by_reference_typer')       # accept/reject is C07's business
+                continue
+            st.add('cases', 1)
+            _run_prog(st, src, chain.SH_INPUTS, [2, (3, 4, 8)[idx % 3]], tag)
+        st.sample({'family': 'N', 'program': progs[payload[0]][0]})
     elif fam == 'O':
         for order in payload:
             st.add('cases', 1)
@@ -105,6 +123,9 @@ def coverage(total, tier):
     cov['monitor_points'] = total.get('monitor_points', {})
     cov['exhaustive'] = total.get('inconclusive', 0) == 0
     cov['bounds'] = {
+        'N': 'one name with two meanings: a global v of 11 kinds (mutable / const with a literal / const with a folded initialiser / zero / 300; int, byte, bool, string, const and mutable arrays) shadowed by 12 binders '
+             '(parameter, run-time local, literal local, const literal local, const run-time local, local of an inner block and of an if body, loop variable, array / string / byte parameter, bool local, the entry '
+             'point\'s own parameter), used as value, operand, argument, assignment target and condition, with the global read before, between and after through a helper; programs the reference typer rejects are skipped and counted',
         'E': 'all typed expression trees of depth<=1 over the full alphabet (10 int, 6 byte, 5 bool leaves; - * + / % unary- '
              'is-casts < == >= and or not) and depth 2 (thorough: partial depth 3) over the reduced alphabet, each in '
              + ('every use position' if tier == 'thorough' else 'every use position for the leaves, 3 round-robin positions for deeper expressions') + ' of its type; inputs ' + str(seq.E_ARGVS),
